@@ -10,6 +10,7 @@ import (
 	"testing"
 	"time"
 
+	networking "istio.io/api/networking/v1alpha3"
 	"istio.io/istio/pilot/pkg/features"
 	"istio.io/istio/pilot/pkg/model"
 	"istio.io/istio/pkg/config/host"
@@ -690,9 +691,46 @@ func canonListeners(o OScope) [][]OSvc {
 var drExportPool = [][]string{nil, nil, {"*"}, {"."}, {"ns1"}, {"ns2"}, {"ns2", "ns3"}, {".", "ns2"}, {"ns1", "ns2", "ns3"}, {"ns1", "ns2"}, {"rootns"}, {"*", "ns1"}, {"ns3"}}
 var drHostPool = []string{"a.com", "b.a.com", "*.a.com", "*.b.a.com", "*.com", "c.org", "*.org", "*"}
 
+// exportTo relation between an older and a newer DestinationRule of one host in one namespace
+var drShapes = []string{"older-wider", "newer-wider", "equal", "disjoint", "older-unset", "newer-unset", "both-unset", "overlap"}
+
+func subsetOfNs(r *randx, pool []string, min int) []string {
+	var out []string
+	for _, n := range pool {
+		if r.Chance(50) {
+			out = append(out, n)
+		}
+	}
+	for len(out) < min {
+		n := vlib.Pick(r.Rand, pool)
+		dup := false
+		for _, x := range out {
+			dup = dup || x == n
+		}
+		if !dup {
+			out = append(out, n)
+		}
+	}
+	return out
+}
+
+func minus(a, b []string) []string {
+	var out []string
+	for _, x := range a {
+		in := false
+		for _, y := range b {
+			in = in || x == y
+		}
+		if !in {
+			out = append(out, x)
+		}
+	}
+	return out
+}
+
 func genDR(t *testing.T, c *vlib.Collector, id *int, seed uint64) {
 	r := &randx{vlib.NewRand(seed ^ 0xc0705)}
-	n := vlib.Scale(200, 5000)
+	n := vlib.Scale(300, 5000)
 	for k := 0; k < n; k++ {
 		*id++
 		w := World{M: Mesh{Root: "rootns", Unified: true, PickBest: true}}
@@ -700,7 +738,6 @@ func genDR(t *testing.T, c *vlib.Collector, id *int, seed uint64) {
 			w.M.DrDefSet = true
 			w.M.DrDefault = vlib.Pick(r.Rand, [][]string{{"*"}, {"."}})
 		}
-		nd := 1 + r.Intn(6)
 		hosts := drHostPool
 		if r.Chance(50) {
 			hosts = drHostPool[:3]
@@ -709,18 +746,87 @@ func genDR(t *testing.T, c *vlib.Collector, id *int, seed uint64) {
 		if r.Chance(50) {
 			nss = []string{"ns1", "rootns"}
 		}
-		for i := 0; i < nd; i++ {
-			w.DRs = append(w.DRs, DR{Name: i + 1, Ns: vlib.Pick(r.Rand, nss), Host: vlib.Pick(r.Rand, hosts), Ctime: i,
-				Export: append([]string{}, vlib.Pick(r.Rand, drExportPool)...)})
-		}
 		proxyNs := vlib.Pick(r.Rand, nsPool)
 		svcNs := vlib.Pick(r.Rand, nss)
 		svcHost := vlib.Pick(r.Rand, []string{"a.com", "b.a.com", "x.b.a.com", "c.org", "*.b.a.com", "d.io"})
+		shape := ""
+		next := 1
+		if r.Chance(65) {
+			// structured: two (sometimes three) rules for one host in the namespace the lookup consults for exported
+			// rules (the service's namespace or the root namespace), related by one of the exportTo shapes; the proxy
+			// lives in a namespace one of them names, mostly without a rule of its own for the host
+			shape = vlib.Pick(r.Rand, drShapes)
+			dn := svcNs
+			if r.Chance(25) {
+				dn = "rootns"
+			}
+			h := vlib.Pick(r.Rand, []string{svcHost, svcHost, "*.a.com", "*.com"})
+			clients := minus(nsPool, []string{dn})
+			var older, newer []string
+			switch shape {
+			case "older-wider":
+				older = subsetOfNs(r, clients, 2)
+				newer = older[:1+r.Intn(len(older)-1)]
+			case "newer-wider":
+				newer = subsetOfNs(r, clients, 2)
+				older = newer[:1+r.Intn(len(newer)-1)]
+			case "equal":
+				older = subsetOfNs(r, clients, 1)
+				newer = append([]string{}, older...)
+			case "disjoint":
+				older = subsetOfNs(r, clients, 1)
+				newer = minus(clients, older)
+				if len(newer) == 0 {
+					newer = []string{"."}
+				}
+			case "older-unset":
+				newer = subsetOfNs(r, clients, 1)
+			case "newer-unset":
+				older = subsetOfNs(r, clients, 1)
+			case "overlap":
+				older = subsetOfNs(r, nsPool, 2)
+				newer = append([]string{older[0]}, minus(nsPool, older)...)
+			}
+			if r.Chance(20) && len(older) > 0 {
+				older = append(older, ".")
+			}
+			w.DRs = append(w.DRs, DR{Name: 1, Ns: dn, Host: h, Export: older, Ctime: 0, TP: r.Chance(60)},
+				DR{Name: 2, Ns: dn, Host: h, Export: newer, Ctime: 1, TP: r.Chance(60)})
+			next = 3
+			if r.Chance(30) {
+				w.DRs = append(w.DRs, DR{Name: 3, Ns: dn, Host: h, Export: subsetOfNs(r, clients, 1), Ctime: 2, TP: r.Chance(60)})
+				next = 4
+			}
+			// the proxy: a namespace named by one of the rules (the difference of the two sets when there is one)
+			cand := append(minus(older, newer), minus(newer, older)...)
+			cand = minus(cand, []string{".", "*"})
+			if len(cand) == 0 || r.Chance(30) {
+				cand = clients
+			}
+			proxyNs = vlib.Pick(r.Rand, cand)
+		}
+		extra := r.Intn(4)
+		if shape == "" {
+			extra = 1 + r.Intn(6)
+		}
+		for i := 0; i < extra; i++ {
+			d := DR{Name: next, Ns: vlib.Pick(r.Rand, nss), Host: vlib.Pick(r.Rand, hosts), Ctime: next - 1, TP: r.Chance(50),
+				Export: append([]string{}, vlib.Pick(r.Rand, drExportPool)...)}
+			if shape != "" && d.Ns == proxyNs && r.Chance(80) {
+				d.Ns = w.DRs[0].Ns // mostly no rule of the proxy's own namespace, so the exported tiers are consulted
+			}
+			w.DRs = append(w.DRs, d)
+			next++
+		}
 		sub := r.Sub()
 		if !c.Wanted(*id) {
 			continue
 		}
-		addDRCase(t, c, *id, w, proxyNs, svcNs, svcHost, sub)
+		var tags []string
+		if shape != "" {
+			tags = append(tags, "dr:shape="+shape)
+		}
+		addDRCase(t, c, *id, w, proxyNs, svcNs, svcHost, sub, tags...)
 	}
 }
 
@@ -728,20 +834,32 @@ func addDRCase(t *testing.T, c *vlib.Collector, id int, w World, proxyNs, svcNs,
 	idp := &id
 	{
 		var obs [][][2]string
+		var obsSubsets [][]int
+		var obsTP []int
 		pan, msg := vlib.Recover(func() {
 			b, err := build(w, sub)
 			if err != nil {
 				panic(err)
 			}
 			defer b.Close()
-			from, _ := model.VerifC07DestinationRule(b.ps, proxyNs, &model.Service{Hostname: host.Name(svcHost),
+			from, rules := model.VerifC07DestinationRule(b.ps, proxyNs, &model.Service{Hostname: host.Name(svcHost),
 				Attributes: model.ServiceAttributes{Namespace: svcNs, Name: "x"}})
-			for _, f := range from {
+			for i, f := range from {
 				var one [][2]string
 				for _, nn := range f {
 					one = append(one, [2]string{nn.Namespace, nn.Name})
 				}
 				obs = append(obs, one)
+				// the merged rule handed to the proxy: whose subsets, whose traffic policy
+				spec := rules[i].Spec.(*networking.DestinationRule)
+				var subs []int
+				for _, ss := range spec.Subsets {
+					var n int
+					fmt.Sscanf(ss.Name, "sub%d", &n)
+					subs = append(subs, n)
+				}
+				obsSubsets = append(obsSubsets, subs)
+				obsTP = append(obsTP, int(spec.GetTrafficPolicy().GetConnectionPool().GetHttp().GetHttp1MaxPendingRequests()))
 			}
 		})
 		if pan {
@@ -749,7 +867,7 @@ func addDRCase(t *testing.T, c *vlib.Collector, id int, w World, proxyNs, svcNs,
 			return
 		}
 		tags := append([]string{"dr"}, extraTags...)
-		if os.Getenv("VERIF_DEBUG") != "" && len(extraTags) > 0 {
+		if os.Getenv("VERIF_DEBUG") != "" && len(extraTags) > 0 && !strings.HasPrefix(extraTags[0], "dr:shape") {
 			t.Logf("%v: destinationRule(%s, %s/%s) from = %v", extraTags, proxyNs, svcNs, svcHost, obs)
 		}
 		switch {
@@ -768,15 +886,20 @@ func addDRCase(t *testing.T, c *vlib.Collector, id int, w World, proxyNs, svcNs,
 			tags = append(tags, "dr:root-proxy")
 		}
 		term := vlib.App("DRule", vlib.NI(*idp), w.M.term(), vlib.ListOf(w.DRs, DR.term), vlib.Str(proxyNs), vlib.Str(svcNs), vlib.Str(svcHost),
-			vlib.ListOf(obs, func(f [][2]string) string {
-				return vlib.ListOf(f, func(p [2]string) string {
-					var n int
-					fmt.Sscanf(p[1], "dr%d", &n)
-					return vlib.Pair(vlib.Str(p[0]), vlib.NI(n))
-				})
-			}))
+			vlib.List(func() []string {
+				var out []string
+				for i, f := range obs {
+					fr := vlib.ListOf(f, func(p [2]string) string {
+						var n int
+						fmt.Sscanf(p[1], "dr%d", &n)
+						return vlib.Pair(vlib.Str(p[0]), vlib.NI(n))
+					})
+					out = append(out, "("+fr+", "+ints(obsSubsets[i])+", "+vlib.NI(obsTP[i])+")")
+				}
+				return out
+			}()))
 		c.Add(vlib.Case{ID: *idp, Term: term, Tags: tags, Sample: map[string]any{"kind": "dr", "mesh": w.M, "drs": w.DRs, "proxy_ns": proxyNs,
-			"svc_ns": svcNs, "svc_host": svcHost, "from": obs}, Trivial: len(obs) == 0 && len(extraTags) == 0})
+			"svc_ns": svcNs, "svc_host": svcHost, "from": obs, "subsets": obsSubsets, "traffic_policy_of": obsTP}, Trivial: len(obs) == 0 && len(extraTags) == 0})
 	}
 }
 
